@@ -1126,13 +1126,14 @@ def run(tier):
                        "storage read by cast<T> and cast<const T> agree with each other and with the in-place rule (nothrow move, size <= 2 words, alignment <= word)")
     rep.rule("C06.cast", "any_cast<T>(any*) returns storage only when operand != nullptr and operand->is_typed(typeid(T)), else nullptr; reference forms "
                          "dereference only after check_any_cast, which throws bad_any_cast exactly for nullptr; type()/is_typed()/empty() have their defining shape")
-    d = cj.dump(driver(), "xtl::")
-    rep.cmd(d.cmd)
-    cls = any_class(d)
-    rep.unit("class xtl::any: %d member definitions; %d payload types" % (len(members(d, cls)), len(PAYLOADS)))
-    rule_rw(rep, d, cls)
-    selfswap = rule_slot(rep, d, cls)
-    rep.note("self-swap safety of the swap slots: %s" % selfswap)
-    rule_life(rep, d, cls, selfswap)
-    rule_cast(rep, d, cls)
+    for std in (["gnu++17"] if tier == "quick" else ["gnu++17", "gnu++14", "gnu++20"]):
+        d = cj.dump(driver(), "xtl::", std=std)
+        rep.cmd(d.cmd)
+        cls = any_class(d)
+        rep.unit("class xtl::any (-std=%s): %d member definitions; %d payload types" % (std, len(members(d, cls)), len(PAYLOADS)))
+        rule_rw(rep, d, cls)
+        selfswap = rule_slot(rep, d, cls)
+        rep.note("self-swap safety of the swap slots: %s" % selfswap)
+        rule_life(rep, d, cls, selfswap)
+        rule_cast(rep, d, cls)
     return rep
